@@ -250,3 +250,55 @@ def helper_sources_worker(arg):
                         "pincludes": pin, "ptext": ptext, "numpy": bool(p.helper_need_numpy),
                         "scope": whelpers.CHelpers[name].get("scope", "file")})
     return res
+
+
+# ------------------------------------------------------------------ helpers shared between modules
+def shared_worker(cases):
+    """cases: list of dict(tag, yaml path | yaml_text, options).  Real generation; records the C helper set of every module
+    (Wrapf.gather_helper_code(fileinfo), Wrapc.gather_helper_code(self.c_helper), add_shadow_helper) and the shared set at the
+    moment Wrapc.write_impl_utility gathers it, and whether the utility source was written."""
+    sys.path.insert(0, common.REPO)
+    from tools import shroudrun
+    from shroud import wrapc, wrapf, whelpers
+    rec = {}
+    of, oc, ou, osh = wrapf.Wrapf.gather_helper_code, wrapc.Wrapc.gather_helper_code, wrapc.Wrapc.write_impl_utility, whelpers.add_shadow_helper
+
+    def gf(self, fileinfo):
+        rec["modules"].append(["fortran:" + str(getattr(fileinfo.node, "name", "?")), sorted(fileinfo.c_helper)])
+        return of(self, fileinfo)
+
+    def gc(self, helpers):
+        if helpers is getattr(self, "c_helper", None):
+            rec["modules"].append(["c-file", sorted(helpers)])
+        return oc(self, helpers)
+
+    def wu(self):
+        rec["shared"] = sorted(self.shared_helper)
+        return ou(self)
+
+    def sh(node):
+        name = osh(node)
+        rec["modules"].append(["shadow", [name]])
+        return name
+    wrapf.Wrapf.gather_helper_code = gf
+    wrapc.Wrapc.gather_helper_code = gc
+    wrapc.Wrapc.write_impl_utility = wu
+    whelpers.add_shadow_helper = sh
+    out = []
+    for c in cases:
+        rec.clear()
+        rec["modules"] = []
+        d = common.scratch("c05s-")
+        try:
+            if c.get("yaml_text") is not None:
+                y = shroudrun.write_yaml(d, "lib.yaml", c["yaml_text"])
+            else:
+                y = c["yaml"]
+            o = os.path.join(d, "out")
+            os.makedirs(o)
+            cfg, exc, _ = shroudrun.run_inproc([y], o, options=c.get("options", []))
+            out.append({"tag": c["tag"], "exc": repr(exc) if exc is not None else None, "modules": list(rec["modules"]),
+                        "shared": rec.get("shared"), "files": sorted(os.listdir(o))})
+        finally:
+            common.rmtree(d)
+    return out
